@@ -7,7 +7,7 @@
 From hls Require Import Base Float Lex Kinds Types Tags Line Keys Media.
 From hls.Generated Require Import Tables.
 From hls Require Import Master.
-From hls.Proofs Require Import Build Lexical Values TextLines AttrText TagText TagTextMedia TagTextVariant TagTextSegment TagTextDateRange FloatRound.
+From hls.Proofs Require Import Build Lexical Values TextLines AttrText TagText TagTextMedia TagTextVariant TagTextSegment TagTextDateRange FloatRound FloatGuard FloatAll MediaParsedWf.
 Open Scope N_scope.
 
 Theorem C18_uint : forall w n, n < 2 ^ w -> parse_uint w (print_uint n) = Some n.
@@ -209,6 +209,95 @@ Proof. exact rnd_pos_fixpoint. Qed.
 Check C18_representable_exact : forall f neg m e, (0 < prec f)%Z -> canonical f m e ->
   rnd_pos f neg (fst (rat_of m e)) (snd (rat_of m e)) = FFin neg m e.
 Print Assumptions C18_representable_exact.
+
+(* hence: a decimal text that denotes a representable value (an integer below 2^24 / 2^53, a dyadic fraction such as 29.5 or
+   0.125, in any spelling) parses to exactly that value *)
+Theorem C18_decimal_exact : forall f neg m e M E, (0 < prec f)%Z -> (0 < m)%Z -> canonical f M E ->
+  (400 <? ndigits m + e)%Z = false -> (ndigits m + e <? -400)%Z = false ->
+  (if (0 <=? e)%Z then (m * 10 ^ e * snd (rat_of M E) = fst (rat_of M E))%Z
+   else (m * snd (rat_of M E) = fst (rat_of M E) * 10 ^ (- e))%Z) ->
+  dec_to_f f (DNum neg m e) = FFin neg M E.
+Proof. exact dec_exact. Qed.
+Check C18_decimal_exact : forall f neg m e M E, (0 < prec f)%Z -> (0 < m)%Z -> canonical f M E ->
+  (400 <? ndigits m + e)%Z = false -> (ndigits m + e <? -400)%Z = false ->
+  (if (0 <=? e)%Z then (m * 10 ^ e * snd (rat_of M E) = fst (rat_of M E))%Z
+   else (m * snd (rat_of M E) = fst (rat_of M E) * 10 ^ (- e))%Z) ->
+  dec_to_f f (DNum neg m e) = FFin neg M E.
+Print Assumptions C18_decimal_exact.
+
+(* the shortest-digits writer (f32 and f64 alike, every canonical value): whatever digits D*10^t the search returns read back,
+   by the decimal reader's rounding, as exactly the value that was written; (0,0) is returned only when the fuel of digit
+   counts runs out, which the sweeps and the correspondence check never observe *)
+Theorem C18_digits_read_back : forall fuel f m e lg k D t, (0 < prec f)%Z -> canonical f m e ->
+  shortest fuel f (FFin false m e) (fst (rat_of m e)) (snd (rat_of m e)) lg k = (D, t) -> D <> 0%Z ->
+  cand_round f D t = FFin false m e.
+Proof. exact shortest_rounds_back. Qed.
+Check C18_digits_read_back : forall fuel f m e lg k D t, (0 < prec f)%Z -> canonical f m e ->
+  shortest fuel f (FFin false m e) (fst (rat_of m e)) (snd (rat_of m e)) lg k = (D, t) -> D <> 0%Z ->
+  cand_round f D t = FFin false m e.
+Print Assumptions C18_digits_read_back.
+
+(* durations below 2^20 s (12 days; the property asks for 10^6 s): Duration -> as_secs_f64 -> from_secs_f64 is the identity
+   on every nanosecond count (two roundings and one f64 addition stay within 2^-33 s of the exact value) *)
+Theorem C18_duration_f64 : forall ns, (0 <= ns < 1048576 * 1000000000)%Z -> dur_of_f (secs_f64_of_dur ns) = Some ns.
+Proof. exact dur_f64_dur. Qed.
+Check C18_duration_f64 : forall ns, (0 <= ns < 1048576 * 1000000000)%Z -> dur_of_f (secs_f64_of_dur ns) = Some ns.
+Print Assumptions C18_duration_f64.
+
+(* ... and with the writer's digits in between: Duration -> f64 -> digits -> f64 -> Duration is the identity *)
+Theorem C18_duration_digits : forall ns, (0 < ns < 1048576 * 1000000000)%Z ->
+  exists m e, secs_f64_of_dur ns = FFin false m e /\ canonical b64 m e /\
+    forall lg D t, shortest 20 b64 (FFin false m e) (fst (rat_of m e)) (snd (rat_of m e)) lg 1 = (D, t) -> D <> 0%Z ->
+      dur_of_f (cand_round b64 D t) = Some ns.
+Proof. exact duration_digits_roundtrip. Qed.
+Check C18_duration_digits : forall ns, (0 < ns < 1048576 * 1000000000)%Z ->
+  exists m e, secs_f64_of_dur ns = FFin false m e /\ canonical b64 m e /\
+    forall lg D t, shortest 20 b64 (FFin false m e) (fst (rat_of m e)) (snd (rat_of m e)) lg 1 = (D, t) -> D <> 0%Z ->
+      dur_of_f (cand_round b64 D t) = Some ns.
+Print Assumptions C18_duration_digits.
+
+(* every finite 32-bit float (every canonical significand/exponent pair, either sign, both zeros): the text written for it
+   (shortest digits that round back, plain decimal) parses back to exactly that value — no bound, no sample: the digit search
+   always ends within its fuel (FloatDigits), its digits round back (FloatRound, FloatNear), and the text is read as those
+   digits (FloatText, FloatGuard) *)
+Theorem C18_f32_text : forall x, valid32 x -> parse_float (print_f32 x) = Ok x.
+Proof. exact f32_text_roundtrip. Qed.
+Check C18_f32_text : forall x, valid32 x -> parse_float (print_f32 x) = Ok x.
+Print Assumptions C18_f32_text.
+
+(* the unsigned float type: the same for every non-negative value *)
+Theorem C18_uf32_text : forall x, valid32 x -> f_is_neg x = false -> parse_ufloat (print_f32 x) = Ok x.
+Proof. exact uf32_text_roundtrip. Qed.
+Check C18_uf32_text : forall x, valid32 x -> f_is_neg x = false -> parse_ufloat (print_f32 x) = Ok x.
+Print Assumptions C18_uf32_text.
+
+(* every float the reader accepts is such a value: it survives the writer and the reader, and its text is attribute-safe
+   (the hypotheses float_rt / value_domain of the text-level theorems hold for everything parsing can produce) *)
+Theorem C18_parsed_float : forall s x, parse_float s = Ok x ->
+  parse_float (print_f32 x) = Ok x /\ float_rt x = true /\ value_domain (VFloat x) = true.
+Proof. exact parsed_float_roundtrip. Qed.
+Check C18_parsed_float : forall s x, parse_float s = Ok x ->
+  parse_float (print_f32 x) = Ok x /\ float_rt x = true /\ value_domain (VFloat x) = true.
+Print Assumptions C18_parsed_float.
+
+(* every Duration below 2^20 s (12 days; the property asks for 10^6 s) with nanosecond precision: the text written for it
+   (as_secs_f64, shortest digits) parses back (f64, try_from_secs_f64) to the same nanosecond count *)
+Theorem C18_duration_text : forall ns : N, ns < 1048576 * 1000000000 -> parse_duration (print_duration ns) = Ok ns.
+Proof. exact duration_text_roundtrip. Qed.
+Check C18_duration_text : forall ns : N, ns < 1048576 * 1000000000 -> parse_duration (print_duration ns) = Ok ns.
+Print Assumptions C18_duration_text.
+
+(* ... so the hypothesis dur_rt of the tag-level theorems holds for every such duration *)
+Theorem C18_duration_hypothesis : forall ns : N, ns < 1048576 * 1000000000 -> dur_rt ns = true.
+Proof. exact dur_rt_small. Qed.
+Check C18_duration_hypothesis : forall ns : N, ns < 1048576 * 1000000000 -> dur_rt ns = true.
+Print Assumptions C18_duration_hypothesis.
+
+Example C18_float_text_example :
+  valid32 (FFin true 12582912 (-22)) /\ print_f32 (FFin true 12582912 (-22)) = lit "-3" /\ valid32 (FFin false 1 (-149))
+  /\ parse_float (print_f32 (FFin false 1 (-149))) = Ok (FFin false 1 (-149))
+  /\ print_duration 9009000000 = lit "9.009" /\ print_duration 1048575999999999 = lit "1048575.999999999".
+Proof. vm_compute. repeat split; try reflexivity; try discriminate; intros H; try discriminate H; reflexivity. Qed.
 
 Example C18_float_hypotheses :
   forallb (fun s => match parse_float s with Ok x => float_rt x | _ => false end)
